@@ -14,6 +14,12 @@
       state satisfies the premises wf_forest / jwf_forest of the theorem
   oracle: generated metamodels x models x options; save; load in a fresh ResourceSet; equal canonical dumps
       (proxies resolved); C01-C03 on the loaded model; no element twice under a unique feature.
+  scenario families (harness/jsonscen.py, implementation only, own PRNG streams 'C09:save-history' /
+      'C09:subpackages', replay through common.scenario_replay): histories of successful and FAILING saves and
+      position-shifting edits on ONE resource object with no load in between, every saved document loaded afterwards
+      in a fresh ResourceSet (fragment, id-attribute and uuid modes); metamodels with nested sub-packages holding
+      same-named classes / enumerations / data types whose same-named features differ in type or kind, compared
+      exactly (value and Python type of every attribute value).
 """
 import json
 import time
@@ -22,6 +28,7 @@ from harness import common
 from harness import ser_gen as G
 from harness import ser_rt as R
 from harness import jsondoc as JD
+from harness import jsonscen as JS
 from harness.props import c08 as X
 
 PROP = 'C09'
@@ -236,6 +243,12 @@ def run(ctx, out):
     thorough = ctx.tier == 'thorough'
     t0 = time.time()
     budget = 480 if thorough else 34
+    # scenario families on the implementation only (harness/jsonscen.py), each with its own PRNG stream; their time is
+    # taken from the budget of the generated oracle cases
+    ts = time.time()
+    X.guarded(out, 'save histories', JS.save_history_scenarios, ctx, out)
+    X.guarded(out, 'same-named classes in sub-packages', JS.subpackage_scenarios, ctx, out)
+    budget -= min(time.time() - ts, 0.2 * budget)
     model = common.Model()
     mm = X.corr_mm()
     built = G.Built(mm)
@@ -253,8 +266,11 @@ def run(ctx, out):
     model.close()
     R.oracle_loop(PROP, 'json', ctx, out, max(5, t0 + budget - time.time()), stats, regression_cases())
     traces = st['value_documents'] + st['refload_documents'] + 2 * jst.get('cases', 0)
+    scen = out.coverage.get('save_history_json', {}).get('documents_loaded_and_compared', 0) \
+        + out.coverage.get('subpackages_json', {}).get('documents', 0)
     out.coverage.update({
-        'evaluations': stats['cases'] + traces,
+        'evaluations': stats['cases'] + traces + scen,
+        'scenario_documents': scen,
         'oracle_cases': stats['cases'],
         'distinct_nontrivial': len(stats['distinct_dumps']),
         'rule': 'oracle: a case = (generated metamodel, generated model, save options) saved as JSON and loaded in a fresh '
@@ -285,9 +301,14 @@ def run(ctx, out):
     ]
 
 
+SCENARIOS = {'save-history': JS.save_history_scenarios, 'subpackages': JS.subpackage_scenarios}
+
+
 def replay(ctx, rep):
     common.use_repo()
     case = rep['case']
+    if case.get('scenario') in SCENARIOS:
+        return common.scenario_replay(ctx, rep, SCENARIOS)
     if case.get('mm') == 'corr_mm':
         case = dict(case, mm=X.corr_mm())
         rep = dict(rep, case=case, signature=None)
